@@ -82,8 +82,8 @@ func Run(run *core.Run) {
 		name, src = "generated", sp.Src
 	}
 	data := []byte(src)
-	mode := t.Draw(8) // 0,1: exhaustive truncation; 2: reader faults; 3: writer faults; else sampled storage faults
-	if mode <= 1 && len(data) > 3000 {
+	mode := t.Draw(9) // 0,1: exhaustive truncation; 2: reader faults; 3: writer faults; 8: comment sweep; else sampled storage faults
+	if (mode <= 1 || mode == 8) && len(data) > 3000 {
 		mode = 4
 	}
 	run.Describe("stored source %s (%d bytes)", name, len(data))
@@ -104,6 +104,24 @@ func Run(run *core.Run) {
 			c.label = fmt.Sprintf("truncate@%d", k)
 			evaluate(run, name, data[:k], data, c)
 			run.Count("fault-fired/truncate")
+		}
+	case mode == 8:
+		if base.entry == eParseDir {
+			base.entry = eParseFile
+		}
+		offs := faults.TokenOffsets(data)
+		ci := t.Draw(len(faults.CommentTexts))
+		run.Describe("comment %q inserted at every one of %d token boundaries through %s", faults.CommentTexts[ci], len(offs), entryNames[base.entry])
+		run.Count("comment-sweeps")
+		for _, k := range offs {
+			if run.Failed() {
+				break
+			}
+			c := base
+			c.label = fmt.Sprintf("comment@%d=%q", k, faults.CommentTexts[ci])
+			in := append(append(append([]byte(nil), data[:k]...), faults.CommentTexts[ci]...), data[k:]...)
+			evaluate(run, name, in, data, c)
+			run.Count("fault-fired/comment-insert")
 		}
 	case mode == 2:
 		run.Describe("reader faults through %s", entryNames[base.entry])
